@@ -15,6 +15,39 @@ from .. import checklib, tlc, impl, corpus
 BROKEN = ["{ RdV = ; }", "{ RdV = RsV @ 1; }", "{ RdV = (RsV + ; }", "{ if (RsV) { RdV = 1; }", "{ RdV = RsV $$; }"]
 
 
+# Texts that differ only in the white space between operator characters (different token sequences, hence different
+# trees or a syntax error) and texts that are equal up to white space between tokens (same tree).  A worker that keeps
+# trees between tasks under a normalised key, or a parser object with state, shows on these and on nothing else.
+LOOKALIKE = [
+    ("{ RdV = RsV++ + RtV; }", "{ RdV = RsV + ++RtV; }", 0),
+    ("{ RdV = RsV << RtV; }", "{ RdV = RsV < <RtV; }", 2),
+    ("{ RdV = RsV >= RtV; }", "{ RdV = RsV > =RtV; }", 2),
+    ("{ RdV = RsV-- - RtV; }", "{ RdV = RsV - --RtV; }", 0),
+    ("{ RdV = RsV && RtV; }", "{ RdV = RsV & &RtV; }", 0),
+    ("{ RdV = RsV + RtV; }", "{ RdV=RsV+RtV ; }", 0),
+    ("{ RdV += RsV; }", "{ RdV + = RsV; }", 2),
+    ("{ RdV = RsV; }", "{ RdV = RsV; }", 0),
+]
+
+
+def lookalike_scenarios():
+    out = []
+    k = 0
+    for (a, b, bad) in LOOKALIKE:
+        for order in (0, 1):
+            x, y = (a, b) if order == 0 else (b, a)
+            fx, fy = (0, 1 if bad else 0) if order == 0 else (1 if bad else 0, 0)
+            # two tasks, one worker: the same process certainly parses both, in this order
+            k += 1
+            out.append({"id": "like-%d" % k, "names": ["L1", "L2", "L3"], "behaviors": {"L1": [x], "L2": [y], "L3": [x]}, "pool": 1,
+                        "delays": {}, "failat": [fx, fy, fx]})
+            # two parts of one behaviour (always one worker) with a neighbour, two workers
+            k += 1
+            out.append({"id": "like-%d" % k, "names": ["M1", "M2"], "behaviors": {"M1": [x, y], "M2": [y]}, "pool": 2,
+                        "delays": {"2": 0.05}, "failat": [1 if fx else (2 if fy else 0), fy]})
+    return out
+
+
 def simulate_schedules(n_tasks, max_w, num, seed, depth=80):
     d = tempfile.mkdtemp(prefix="verif_simpp_")
     try:
@@ -108,6 +141,7 @@ def run(ctx):
         sc = scenario_from_schedule(1000 + j, sch, rnd)
         sc["delays"] = {str(t + 1): round(rnd.random() * 0.05, 3) for t in range(n) if rnd.random() < 0.3}
         scenarios.append(sc)
+    scenarios += lookalike_scenarios()
     d = tempfile.mkdtemp(prefix="verif_c18_")
     try:
         sf, tf = os.path.join(d, "sc.json"), os.path.join(d, "tr.json")
